@@ -176,6 +176,12 @@ func checkC01(c *Check) {
 	alwaysSucceedsTable(c, r)
 	ruleNamesOrder(c, r)
 	expressionTypes(c, r)
+	// the terminals' contract (dot, negated classes and !. stop at the end of the
+	// input and nowhere else) rests on the end symbol being no code point
+	forEachRuntime(c, func(a *aggregator, v *rtView) {
+		rtSentinel(a, v)
+		rtMatchers(a, v)
+	})
 }
 
 // alwaysSucceedsTable evaluates (*node).CheckAlwaysSucceeds on models and
